@@ -80,10 +80,14 @@ PROPS = {
     ),
     "C19": dict(
         quick={"batches": [dict(name="plain-build schedules (result, snapshot, repeatability oracles)", runs=30_000, wall=150, recheck=300),
-                           dict(name="race-build schedules (race detector armed, sync-ignored hand-off)", runs=6_000, wall=150, recheck=100, race=True)],
+                           dict(name="race-build schedules (race detector armed, sync-ignored hand-off)", runs=6_000, wall=150, recheck=100, race=True),
+                           dict(name="race-build cold starts: 8 runs per short-lived process, concurrent phase first (first-use races of lazily initialised shared state)",
+                                runs=2_400, wall=150, recheck=50, race=True, chunk=8, args=["-sim.order", "conc-first"])],
                "minimise_wall": 40},
         thorough={"batches": [dict(name="plain-build schedules (result, snapshot, repeatability oracles)", runs=2_000_000, wall=1500, recheck=2000),
-                              dict(name="race-build schedules (race detector armed, sync-ignored hand-off)", runs=300_000, wall=1500, recheck=500, race=True)],
+                              dict(name="race-build schedules (race detector armed, sync-ignored hand-off)", runs=300_000, wall=1500, recheck=500, race=True),
+                              dict(name="race-build cold starts: 8 runs per short-lived process, concurrent phase first (first-use races of lazily initialised shared state)",
+                                   runs=48_000, wall=1500, recheck=200, race=True, chunk=8, args=["-sim.order", "conc-first"])],
                   "minimise_wall": 180},
         race=True,
         anchor_files=["calculator/ExpressionCalculator.go", "calculator/CalculationStack.go", "variants/AbstractVariantOperations.go",
@@ -94,7 +98,7 @@ PROPS = {
              "starve-one; quanta of 1-400 yield steps) that can switch between any two statements of the library. Non-trivial: at least one context "
              "switch happened while tasks were inside library code. Distinct: hash of (scenario, setup, tasks, executed schedule).",
         state_measure="not applicable (no model state: evaluation is compared with the sequential result); see distinct_schedules and distinct_switch_site_pairs",
-        probes=["scenario_shared-calculator", "scenario_shared-template", "scenario_separate", "scenario_map-order-repeat", "map_order_case_colliding"],
+        probes=["scenario_shared-calculator", "scenario_shared-template", "scenario_separate", "scenario_map-order-repeat", "map_order_case_colliding", "order_conc_first"],
         real=["every library package (instrumented copy): calculator, parsers, tokenizers, functions, variables, variants, mustache, csv, io"],
         stub=["none: variable collections and maps are the library's own types filled by the harness"],
         assumptions=["the hand-off between scheduler and tasks is hidden from the race detector with runtime.RaceDisable, so tasks look unsynchronised "
